@@ -785,13 +785,20 @@ class Processor:
                     and hasattr(parent, "merge")
                     and len(parent.merge) > 0
                 ):
+                    merge_removed = False
                     for (midx, merge_node) in parent.merge:
                         if merge_node == compare_node:
                             for (key, val) in merge_node.items():
                                 if key in parent and parent[key] == val:
                                     del parent[key]
                             del parent.merge[midx]
+                            merge_removed = True
                             break
+
+                    # The name merely coincides with that of an Anchored
+                    # Hash which is not merged here, so it is just a key.
+                    if not merge_removed and parentref in parent:
+                        del parent[parentref]
                 elif parentref in parent:
                     del parent[parentref]
             elif isinstance(parent, (CommentedSeq, list)):
